@@ -8,6 +8,7 @@ import (
 	"os"
 	"path/filepath"
 	"sort"
+	"strings"
 
 	"github.com/arm-doe/sts"
 )
@@ -82,6 +83,10 @@ func (m *w2mon) claimSound(n *RecvNode, src, name, hash string, beg, end int64) 
 	if m.delivered(src, name, hash) {
 		return true, "" // delivered; a later version may be staged now
 	}
+	if m.overwrittenByOtherVersion(src, name, hash) {
+		m.s.stat("probe:claim-of-contested-name")
+		return true, ""
+	}
 	return false, why
 }
 
@@ -111,7 +116,13 @@ func (m *w2mon) onCompleteC(n *RecvNode, path string) {
 	}
 	if want := s.peerContent(cmp.Name, cmp.Hash); want != nil {
 		got, err := os.ReadFile(path + ".full")
-		if err == nil && string(got) != string(want) {
+		src := rel
+		if i := strings.IndexByte(rel, filepath.Separator); i > 0 {
+			src = rel[:i]
+		}
+		if err == nil && string(got) != string(want) && m.overwrittenByOtherVersion(src, cmp.Name, cmp.Hash) {
+			s.stat("probe:complete-mixture-of-contested-name")
+		} else if err == nil && string(got) != string(want) {
 			// which recorded range is not backed by received bytes?
 			for _, r := range rec {
 				if r.End <= int64(len(got)) && r.End <= int64(len(want)) && string(got[r.Beg:r.End]) != string(want[r.Beg:r.End]) {
@@ -198,7 +209,6 @@ func (m *w2mon) checkCompanionsC() {
 				}
 			}
 			s.violate("C09", oracle, "part %s[%d:%d) was acknowledged but the record now holds only %v", k, w.Beg, w.End, rec)
-			return
 		}
 	}
 }
